@@ -30,6 +30,7 @@ func runC18(c *Ctx) {
 	c18R3(c, "C18.R3")
 	c18R4(c, "C18.R4")
 	c18R5(c, "C18.R5")
+	c18R6(c, "C18.R6")
 }
 
 const umRel = "internal/server/usermanager"
